@@ -219,6 +219,36 @@ fn clone_from_scenario(seed: u64, fails: &mut Vec<String>) {
     reg(|r| { r.live.clear(); r.double_drops = 0; });
 }
 
+/// A value whose conversion into the archetype's components panics (user code run inside `create`).
+pub struct Spawn(pub u32);
+impl From<Spawn> for ArchAComponents { fn from(_: Spawn) -> Self { panic!("injected Into panic") } }
+
+/// C10: a panic raised by the user's `Into<Components>` conversion inside create / create_within_capacity leaves the
+/// archetype exactly as it was (len, capacity, every row, every handle).
+fn into_panic_scenario(seed: u64, fails: &mut Vec<String>) {
+    let name = format!("into_panic seed={}", seed);
+    let mut rng = Lcg(seed ^ 0x1a7);
+    let mut t = Twin { world: EcsWorld::default(), a: vec![], b: vec![] };
+    for op in gen_ops(&mut rng, 4 + (seed % 12) as usize) { apply(&mut t, &op); }
+    let before = snapshot(&mut t);
+    let (len0, cap0) = (t.world.arch_a.len(), t.world.arch_a.capacity());
+    let within = seed % 2 == 1;
+    let r = { let w = &mut t.world; catch_unwind(AssertUnwindSafe(|| if within { w.arch_a.create_within_capacity(Spawn(1)).is_ok() } else { w.arch_a.create(Spawn(1)); true })) };
+    let (len1, cap1) = (t.world.arch_a.len(), t.world.arch_a.capacity());
+    if r.is_ok() && !(within && len0 == cap0) { fails.push(format!("{} the conversion did not run (no panic)", name)); }
+    if len1 != len0 { fails.push(format!("{} len() is {} after a create whose Into conversion panicked (it was {})", name, len1, len0)); }
+    else if cap1 < cap0 { fails.push(format!("{} capacity shrank from {} to {}", name, cap0, cap1)); }
+    else {
+        // capacity may have grown before the conversion ran; everything else must be as before
+        let after = snapshot(&mut t).replace(&format!("capA {}", cap1), &format!("capA {}", cap0));
+        if after != before { fails.push(format!("{} the archetype changed although create panicked in the Into conversion", name)); }
+    }
+    if len1 == len0 { let dr = catch_unwind(AssertUnwindSafe(move || drop(t))); if dr.is_err() { fails.push(format!("{} drop panicked", name)); } } else { std::mem::forget(t); }
+    let dd = reg(|r| r.double_drops);
+    if dd != 0 { fails.push(format!("{} {} double drops", name, dd)); }
+    reg(|r| { r.live.clear(); r.double_drops = 0; });
+}
+
 fn leak_scenario(seed: u64, which: u32, fails: &mut Vec<String>) {
     let name = format!("leak seed={} guard={}", seed, which);
     let mut rng = Lcg(seed ^ 0x9e37);
@@ -273,6 +303,9 @@ fn main() {
     let c2 = fails.len();
     for k in 0..n { clone_from_scenario(seed * 1000 + k, &mut fails); }
     println!("clonefrom scenarios {} failures {}", n, fails.len() - c2);
+    let c3 = fails.len();
+    for k in 0..n { into_panic_scenario(seed * 1000 + k, &mut fails); }
+    println!("intopanic scenarios {} failures {}", n, fails.len() - c3);
     for f in fails.iter().take(12) { println!("FAIL {}", f); }
     std::process::exit(if fails.is_empty() { 0 } else { 1 });
 }
